@@ -88,7 +88,10 @@ def specialOk : Bool :=
   idsOk L && stableOk L && namesOk L && gtmAvoidsSpecial L && originsAvoidSpecial L && miscOk L &&
   L.tri .tuple L.tupleId == 1
 
-def adequate : Bool := rowsOk L && originsOk L && gtmOk L && collectionsOk L && specialOk L
+/-- `NoneType` is an ordinary annotation (not a qualifier). -/
+def noneOk : Bool := L.noneTypeId != L.finalId && L.noneTypeId != L.classVarId
+
+def adequate : Bool := rowsOk L && originsOk L && gtmOk L && collectionsOk L && specialOk L && noneOk L
 
 /-- **The regenerated table is adequate** (re-decided on every run against `Gen/Lattice.lean`). -/
 theorem lattice_adequate : adequate Typelib.Gen.lattice = true := by decide +kernel
@@ -230,7 +233,7 @@ structure ResolvesTo (a : Ann) (c : Nat) : Prop where
 theorem originM_resolved (hA : adequate L = true) {a : Ann} (hd : directOk a = true) {c : Nat}
     (hr : ResolvesTo L a c) : originM L a = .base c := by
   have hG : gtmOk L = true := by
-    simp only [adequate, Bool.and_eq_true] at hA; exact hA.1.1.2
+    simp only [adequate, Bool.and_eq_true] at hA; exact hA.1.1.1.2
   have hres := hr.resolved
   unfold resolvedClass at hres
   cases ht : tyOrigin L (strip a) with
@@ -244,14 +247,16 @@ theorem originM_resolved (hA : adequate L = true) {a : Ann} (hd : directOk a = t
 /-! ## 4. Class-valued predicates built on `origin` agree with the runtime -/
 
 theorem adequate_rows (hA : adequate L = true) : rowsOk L = true := by
-  simp only [adequate, Bool.and_eq_true] at hA; exact hA.1.1.1.1
+  simp only [adequate, Bool.and_eq_true] at hA; exact hA.1.1.1.1.1
 theorem adequate_origins (hA : adequate L = true) : originsOk L = true := by
-  simp only [adequate, Bool.and_eq_true] at hA; exact hA.1.1.1.2
+  simp only [adequate, Bool.and_eq_true] at hA; exact hA.1.1.1.1.2
 theorem adequate_gtm (hA : adequate L = true) : gtmOk L = true := by
-  simp only [adequate, Bool.and_eq_true] at hA; exact hA.1.1.2
+  simp only [adequate, Bool.and_eq_true] at hA; exact hA.1.1.1.2
 theorem adequate_collections (hA : adequate L = true) : collectionsOk L = true := by
-  simp only [adequate, Bool.and_eq_true] at hA; exact hA.1.2
+  simp only [adequate, Bool.and_eq_true] at hA; exact hA.1.1.2
 theorem adequate_special (hA : adequate L = true) : specialOk L = true := by
+  simp only [adequate, Bool.and_eq_true] at hA; exact hA.1.2
+theorem adequate_none (hA : adequate L = true) : noneOk L = true := by
   simp only [adequate, Bool.and_eq_true] at hA; exact hA.2
 
 /-- The runtime's answer for a resolved class. -/
@@ -984,37 +989,76 @@ theorem isuniontype_spec (hA : adequate L = true) {a : Ann} (hp : plainOk L a = 
   | newtype x => simp [plainOk] at hp
   | alias x => simp [plainOk] at hp
 
-/-- The documented meaning of `isoptionaltype`: a union with a `None` member in any spelling, or a Literal with `None`. -/
+/-- The documented meaning of `isoptionaltype`: a union with a member that stands for `None` (directly, or through
+    aliases / NewTypes) in any spelling, or a Literal with `None`. -/
 def specOptional : Ann → Bool
-  | .union sp ms => sp == .optional || ms.any (isNoneAnn L)
+  | .union sp ms => sp == .optional || ms.any (fun m => isNoneAnn L (core L m))
   | .literal h => h
   | _ => false
 
-theorem isoptionaltype_spec (hA : adequate L = true) {a : Ann} (hp : plainOk L a = true) :
-    isoptionaltypeM L a = specOptional L a := by
+/-- Every argument is a legal annotation (so that `unwrap` does not raise on it). -/
+def argsLegal (a : Ann) : Bool := (rawArgs L a).all (legal L)
+
+theorem nullScan_legal (hA : adequate L = true) : ∀ as : List Ann, as.all (legal L) = true →
+    nullScan L as = some (as.any (fun m => isNoneAnn L (core L m)))
+  | [], _ => rfl
+  | a :: as, h => by
+    simp only [List.all_cons, Bool.and_eq_true] at h
+    simp only [nullScan, unwrap_strips L hA h.1, List.any_cons]
+    by_cases hn : isNoneAnn L (core L a) = true
+    · simp [hn]
+    · simp [hn, nullScan_legal hA as h.2]
+
+theorem noneType_is_none (hA : adequate L = true) : isNoneAnn L (.base L.noneTypeId) = true := by
+  have hm := adequate_special L hA
+  simp only [specialOk, miscOk, Bool.and_eq_true] at hm
+  exact hm.1.2.2
+
+theorem noneType_legal (hA : adequate L = true) : legal L (.base L.noneTypeId) = true := by
+  have h := adequate_none L hA
+  simpa [legal, innerOk, noneOk] using h
+
+theorem isoptionaltype_spec (hA : adequate L = true) {a : Ann} (hp : plainOk L a = true)
+    (hl : argsLegal L a = true) : isoptionaltypeM L a = some (specOptional L a) := by
   obtain ⟨nu, nut, _, nl, nf⟩ := names_of L hA
   obtain ⟨_, _, _, _, o1, o2, o3, o4, n1, n2, n3, n4⟩ := nameIn_table
-  unfold isoptionaltypeM
+  unfold isoptionaltypeM isoptionalWith
+  unfold argsLegal at hl
   cases a with
   | base i =>
     obtain ⟨_, j, hj, _, _, hn⟩ := ordinary_origin L hp
-    rw [hj, (not_magic hn).2.1, (not_magic hn).2.2]; simp [specOptional]
+    simp [nullArg, rawArgs, nullScan, hj, (not_magic hn).2.1, (not_magic hn).2.2, specOptional]
   | sub g args =>
     obtain ⟨_, j, hj, _, _, hn⟩ := ordinary_origin L (i := g) hp
-    rw [originM_sub, hj, (not_magic hn).2.1, (not_magic hn).2.2]; simp [specOptional]
+    simp only [nullArg, rawArgs] at hl ⊢
+    rw [nullScan_legal L hA args hl, originM_sub, hj, (not_magic hn).2.1, (not_magic hn).2.2]
+    simp [specOptional]
   | union sp ms =>
     rw [originM_union L hA]
-    cases sp <;> simp [nu, nut, o1, o2, n1, n2, hasNullArg, specOptional]
+    cases sp with
+    | typing =>
+      simp only [nullArg, rawArgs] at hl ⊢
+      rw [nullScan_legal L hA ms hl]
+      simp [nu, o1, n1, specOptional]
+    | pipe =>
+      simp only [nullArg, rawArgs] at hl ⊢
+      rw [nullScan_legal L hA ms hl]
+      simp [nut, o2, n2, specOptional]
+    | optional =>
+      simp only [nullArg, rawArgs] at hl ⊢
+      rw [nullScan_legal L hA _ hl]
+      simp [nu, o1, n1, specOptional, core, noneType_is_none L hA]
   | literal h =>
     rw [originM_literal L hA, nl, o3, n3]
-    simp [hasNullArg, specOptional]
+    simp [nullArg, specOptional]
   | final x =>
-    rw [originM_final L hA, nf, o4, n4]
+    simp only [nullArg, rawArgs] at hl ⊢
+    rw [nullScan_legal L hA _ hl, originM_final L hA, nf, o4, n4]
     simp [specOptional]
-  | tvarBound b => rw [originM_tvarBound]; simp [nameOf, nameIn, specOptional]
-  | tvarConstr cs => rw [originM_tvarConstr]; simp [nameOf, nameIn, specOptional]
-  | tvarFree => rw [originM_tvarFree]; simp [nameOf, nameIn, specOptional]
-  | fref l b => rw [originM_fref]; simp [nameOf, nameIn, specOptional]
+  | tvarBound b => rw [originM_tvarBound]; simp [nullArg, rawArgs, nullScan, nameOf, nameIn, specOptional]
+  | tvarConstr cs => rw [originM_tvarConstr]; simp [nullArg, rawArgs, nullScan, nameOf, nameIn, specOptional]
+  | tvarFree => rw [originM_tvarFree]; simp [nullArg, rawArgs, nullScan, nameOf, nameIn, specOptional]
+  | fref l b => rw [originM_fref]; simp [nullArg, rawArgs, nullScan, nameOf, nameIn, specOptional]
   | classvar x => simp [plainOk] at hp
   | newtype x => simp [plainOk] at hp
   | alias x => simp [plainOk] at hp
@@ -1242,11 +1286,26 @@ theorem isNoneAnn_erase (a : Ann) : isNoneAnn L (erase L a) = isNoneAnn L a := b
   | union sp ms => cases sp <;> simp [erase, isNoneAnn]
   | _ => simp [erase, isNoneAnn]
 
-theorem any_none_erase (ms : List Ann) : (eraseList L ms).any (isNoneAnn L) = ms.any (isNoneAnn L) := by
+theorem core_erase : ∀ a : Ann, core L (erase L a) = erase L (core L a)
+  | .final a => by simpa [erase, core] using core_erase a
+  | .classvar a => by simpa [erase, core] using core_erase a
+  | .alias a => by simpa [erase, core] using core_erase a
+  | .newtype a => by simpa [erase, core] using core_erase a
+  | .tvarBound a => by simpa [erase, core] using core_erase a
+  | .tvarConstr _ => by simp [erase, core]
+  | .tvarFree => by simp [erase, core]
+  | .base _ => by simp [erase, core]
+  | .sub _ _ => by simp [erase, core]
+  | .union sp _ => by cases sp <;> simp [erase, core]
+  | .literal _ => by simp [erase, core]
+  | .fref _ _ => by simp [erase, core]
+
+theorem any_none_erase (ms : List Ann) :
+    (eraseList L ms).any (fun m => isNoneAnn L (core L m)) = ms.any (fun m => isNoneAnn L (core L m)) := by
   rw [eraseList_eq_map, List.any_map]
   congr 1
   funext m
-  exact isNoneAnn_erase L m
+  simp [core_erase, isNoneAnn_erase]
 
 theorem isUnion_erase (a : Ann) : (erase L a).isUnion = a.isUnion := by
   cases a with
@@ -1254,13 +1313,11 @@ theorem isUnion_erase (a : Ann) : (erase L a).isUnion = a.isUnion := by
   | _ => simp [erase, Ann.isUnion]
 
 theorem specOptional_erase (hA : adequate L = true) (a : Ann) : specOptional L (erase L a) = specOptional L a := by
-  have hm := adequate_special L hA
-  simp only [specialOk, miscOk, Bool.and_eq_true] at hm
-  have hn : isNoneAnn L (.base L.noneTypeId) = true := hm.1.2.2
+  have hn := noneType_is_none L hA
   cases a with
   | union sp ms =>
     cases sp with
-    | optional => simp [erase, specOptional, List.any_append, hn]
+    | optional => simp [erase, specOptional, List.any_append, hn, core]
     | typing => simp [erase, specOptional, any_none_erase]
     | pipe =>
       simp only [erase, specOptional, any_none_erase]
@@ -1281,9 +1338,10 @@ theorem specFinal_erase (a : Ann) : specFinal (erase L a) = specFinal a := by
 theorem isuniontype_spelling_invariant (hA : adequate L = true) {a : Ann} (hp : plainOk L a = true) :
     isuniontypeM L (erase L a) = isuniontypeM L a := by
   rw [isuniontype_spec L hA hp, isuniontype_spec L hA (plainOk_erase L hA hp), isUnion_erase]
-theorem isoptionaltype_spelling_invariant (hA : adequate L = true) {a : Ann} (hp : plainOk L a = true) :
+theorem isoptionaltype_spelling_invariant (hA : adequate L = true) {a : Ann} (hp : plainOk L a = true)
+    (hl : argsLegal L a = true) (hl' : argsLegal L (erase L a) = true) :
     isoptionaltypeM L (erase L a) = isoptionaltypeM L a := by
-  rw [isoptionaltype_spec L hA hp, isoptionaltype_spec L hA (plainOk_erase L hA hp), specOptional_erase L hA]
+  rw [isoptionaltype_spec L hA hp hl, isoptionaltype_spec L hA (plainOk_erase L hA hp) hl', specOptional_erase L hA]
 theorem isliteral_spelling_invariant (hA : adequate L = true) {a : Ann} (hp : plainOk L a = true) :
     isliteralM L (erase L a) = isliteralM L a := by
   rw [isliteral_spec L hA hp, isliteral_spec L hA (plainOk_erase L hA hp), specLiteral_erase]
@@ -1467,7 +1525,7 @@ theorem unwrap_classvar_literal_witness :
     (unwrapM G (.classvar (.literal false))).map isWrapper = some true ∧
     (unwrapM G (.final (.literal false))).map isWrapper = some false ∧
     isuniontypeM G (.classvar (.union .optional [.base Id.i_int])) = true ∧
-    isoptionaltypeM G (.classvar (.union .optional [.base Id.i_int])) = false := by
+    isoptionaltypeM G (.classvar (.union .optional [.base Id.i_int])) = some false := by
   decide +kernel
 
 /-! ## 13. Non-vacuity -/
@@ -1500,10 +1558,13 @@ example : (unwrapM G (.alias (.alias (.newtype (.base Id.i_str))))).map (isstrin
 
 example : plainOk G (.union .pipe [.base Id.i_int, .base Id.i_NoneType]) = true := by decide +kernel
 example : plainOk G (.sub Id.i_typing_List [.base Id.i_int]) = true := by decide +kernel
-example : isoptionaltypeM G (.union .pipe [.base Id.i_int, .base Id.i_NoneType]) = true ∧
-    isoptionaltypeM G (.union .optional [.base Id.i_int]) = true ∧
-    isoptionaltypeM G (.union .typing [.base Id.i_int, .base Id.i_str]) = false ∧
-    isoptionaltypeM G (.literal true) = true := by decide +kernel
+example : isoptionaltypeM G (.union .pipe [.base Id.i_int, .base Id.i_NoneType]) = some true ∧
+    isoptionaltypeM G (.union .optional [.base Id.i_int]) = some true ∧
+    isoptionaltypeM G (.union .typing [.base Id.i_int, .base Id.i_str]) = some false ∧
+    isoptionaltypeM G (.union .typing [.base Id.i_int, .alias (.newtype (.base Id.i_NoneType))]) = some true ∧
+    isoptionaltypeM G (.literal true) = some true := by decide +kernel
+example : argsLegal G (.union .typing [.base Id.i_int, .alias (.newtype (.base Id.i_NoneType))]) = true := by
+  decide +kernel
 example : isfixedtupletypeM G (.sub Id.i_typing_Tuple [.base Id.i_int, .base Id.i_str]) = true ∧
     isfixedtupletypeM G (.sub Id.i_tuple [.base Id.i_int, .base Id.i_Ellipsis]) = false := by decide +kernel
 example : instantiableM G (originM G (.sub Id.i_collections_abc_Set [.base Id.i_int])) = true ∧
